@@ -71,7 +71,7 @@ EnvOK(cmd, F, B) == Len(B) = Len(cmd.ticks) /\ \A k \in 1..Len(B) : B[k] = ExtAp
 
 Holds(r, ev, PP, M) ==
     LET c == ev.case  o == ev.obs  cmd == ev.case.cmd  live == ev.panic = ""
-        okPre == PP.status = "Conforming"
+        okPre == JudgedLikeConforming(PP, c.pre)
         P == PP.lines
         Q == SplitLines(o.post)
         judged == live /\ okPre /\ M.st # "unspec" /\ ~c.nofile
@@ -108,7 +108,7 @@ Holds(r, ev, PP, M) ==
 
 Failed(ev) ==
     LET PP == ParseDoc(ev.case.pre)
-        M == IF PP.status = "Conforming" THEN Model(ev.case.cmd, DocData(PP), ev.case.now, ev.case.cfg) ELSE [st |-> "unspec"]
+        M == IF JudgedLikeConforming(PP, ev.case.pre) THEN Model(ev.case.cmd, DocData(PP), ev.case.now, ev.case.cfg) ELSE [st |-> "unspec"]
     IN  {r \in RuleNames : ~Holds(r, ev, PP, M)}
 Accept == l > 0 => LET v == Failed(Trace[l]) IN v = {} \/ (PrintT(<<"VIOL", l, v>>) /\ FALSE)
 =============================================================================
